@@ -100,7 +100,8 @@ Definition upq_eqb (a b : upq) : bool :=
 Definition put_optbytes (o : option (list N)) : list N :=
   match o with Some b => 1 :: put_bytes b | None => [0] end.
 
-Record acc := { a_src : list (N * (N * N));      (* per IPv4 source: tokens charged so far, time of its first charge *)
+Record acc := { a_fetch : list (DnsCache.key * (N * pkt));   (* per key: the latest observed upstream answer and when *)
+                a_src : list (N * (N * N));      (* per IPv4 source: tokens charged so far, time of its first charge *)
                 a_viol : N; a_diff : option (list N); a_hit : bool; a_drop : bool; a_aclref : bool; a_tcp : bool; a_fwd : bool }.
 Definition first_nz (a b : N) : N := if a =? 0 then b else a.
 Definition first_some {A} (a b : option A) : option A := match a with Some _ => a | None => b end.
@@ -165,13 +166,52 @@ Fixpoint run_steps (rules : list Acl.rule) (rt : DnsRoute.table) (cur : list N) 
     let src' := if charge =? 0 then a_src a
                 else (srckey, (total, snd old)) :: filter (fun e => negb (fst e =? srckey)) (a_src a) in
     let v4 := if 2 * Bucket.CAP + 2 * (Bucket.RATE * (d_ts s + 1 - snd old)) <? total then 4 else 0 in
+    (* D05/D04 on what the implementation sent: records relayed without asking an upstream must be
+       the latest upstream answer for the identical key, no older than its smallest TTL, TTLs lowered
+       by the whole seconds elapsed (a prefix of each section: the size limit may cut) *)
+    let fetch_lookup := fix fl (k : DnsCache.key) (l : list (DnsCache.key * (N * pkt))) : option (N * pkt) :=
+      match l with [] => None | (k', v) :: r => if DnsCache.key_eqb k k' then Some v else fl k r end in
+    let v5 :=
+      match d_reply s, q with
+      | Some b, Ok qq =>
+        match decode b with
+        | Ok r =>
+          if (lenN (d_ups s) =? 0) && negb (lenN (answer r ++ nameserver r ++ additional r) =? 0) then
+            match fetch_lookup (key_of qq) (a_fetch a) with
+            | Some (t0, m) =>
+              let el := d_tns s - t0 in
+              let d := el / 1000000000 in
+              let low := map (fun x => with_ttl x (r_ttl x - d)) in
+              if (qclass qq =? 1) && (t0 <=? d_tns s) && (el <=? 1000000000 * DnsForward.min_ttl m)
+                 && rrs_eqb (answer r) (firstn (length (answer r)) (low (answer m)))
+                 && rrs_eqb (nameserver r) (firstn (length (nameserver r)) (low (nameserver m)))
+                 && rrs_eqb (additional r) (firstn (length (additional r)) (low (additional m)))
+              then 0 else 5
+            | None => 5
+            end
+          else 0
+        | _ => 0
+        end
+      | _, _ => 0
+      end in
+    let fetch' :=
+      match q with
+      | Ok qq =>
+        if negb (lenN (d_ups s) =? 0) && (qclass qq =? 1) then
+          match fst (out_query (d_tcp s) id u) with
+          | UOk m => (key_of qq, (d_tns s, m)) :: filter (fun e => negb (DnsCache.key_eqb (key_of qq) (fst e))) (a_fetch a)
+          | UErr _ => filter (fun e => negb (DnsCache.key_eqb (key_of qq) (fst e))) (a_fetch a)
+          end
+        else a_fetch a
+      | _ => a_fetch a
+      end in
     match dns_step mac c st (d_tns s) (d_ts s) (d_client s) (d_port s) (d_local s) (d_tcp s)
                    (d_query s) u id eo with
     | Ok (st', out, qs) =>
       let ok := opt_eqb bytes_eqb out (d_reply s) && list_eqb upq_eqb qs (d_ups s) in
       run_steps rules rt cur st'
-        {| a_src := src';
-           a_viol := first_nz (a_viol a) (first_nz v1 (first_nz v2 (first_nz v3 v4)));
+        {| a_fetch := fetch'; a_src := src';
+           a_viol := first_nz (a_viol a) (first_nz v1 (first_nz v2 (first_nz v3 (first_nz v4 v5))));
            a_diff := first_some (a_diff a)
                        (if ok then None else Some (i :: put_optbytes out ++ lenN qs :: flat_map (fun x : upq => [fst (fst x); if snd (fst x) then 1 else 0]) qs));
            a_hit := a_hit a || (match q with
@@ -188,8 +228,8 @@ Fixpoint run_steps (rules : list Acl.rule) (rt : DnsRoute.table) (cur : list N) 
         (i + 1) rest
     | _ =>
       (* the model aborts: reported as a disagreement (D01_total says it cannot) *)
-      {| a_src := src';
-         a_viol := first_nz (a_viol a) (first_nz v1 (first_nz v2 (first_nz v3 v4)));
+      {| a_fetch := fetch'; a_src := src';
+         a_viol := first_nz (a_viol a) (first_nz v1 (first_nz v2 (first_nz v3 (first_nz v4 v5))));
          a_diff := first_some (a_diff a) (Some [i; 99]);
          a_hit := a_hit a; a_drop := a_drop a; a_aclref := a_aclref a; a_tcp := a_tcp a; a_fwd := a_fwd a |}
     end
@@ -205,7 +245,7 @@ Definition check_history (ts : list N) : list N :=
         match tok_counted tok_step r with
         | Some (steps, []) =>
           let a := run_steps rules rt cur (initial_state cur prev)
-                     {| a_src := []; a_viol := 0; a_diff := None; a_hit := false; a_drop := false; a_aclref := false;
+                     {| a_fetch := []; a_src := []; a_viol := 0; a_diff := None; a_hit := false; a_drop := false; a_aclref := false;
                         a_tcp := false; a_fwd := false |} 0 steps in
           if negb (a_viol a =? 0) then v_viol (a_viol a)
           else match a_diff a with
